@@ -134,7 +134,11 @@ def arg_reduction(x, chunk, combine, agg, axis=None, keepdims=False, split_every
     # layout (e.g. a native sliding-window reduction keeping its input's finer
     # blocks) would otherwise leave the tree a level short and the result
     # would silently be the arg-reduction of the first block group only.
-    tmp = ArgChunk(x.freeze_chunks().expr, chunk, axis, ravel)
+    # (Unknown chunk sizes cannot be pinned -- the barrier could not restore
+    # them -- and arrays with several unknown-size blocks along the reduced
+    # axis were refused above.)
+    known = not any(np.isnan(c) for dim in x.chunks for c in dim)
+    tmp = ArgChunk((x.freeze_chunks() if known else x).expr, chunk, axis, ravel)
 
     # Determine dtype
     dtype = np.argmin(asarray_safe([1], like=meta_from_array(x)))
